@@ -272,7 +272,7 @@ def rule_M2(repo: Repo) -> RuleResult:
         if i.verdict == "ok":
             res.instances.append(type(i)("M2", i.file, i.line, i.function, i.construct, "ok", i.reason, True))
     for v in r1.violations:
-        if v.message.startswith("M2:"):
+        if v.message.startswith("M2:") or "is not accumulated in the merge loop" in v.message:
             res.bad_at(v.file, v.line, v.function, v.construct, v.message)
     return res
 
@@ -335,12 +335,42 @@ def _m3_function(f: Func, res: RuleResult):
         txt = " ".join(norm(n) for n in walk_no_nested(f.node) if isinstance(n, ast.Call))
         if ".map(" in txt and "as_completed" not in txt:
             res.ok(f, f.node, "Executor.map", "map preserves submission order")
-        elif any(isinstance(l.iter, ast.Name) for l in loops) and ".result()" in txt and "as_completed" not in txt:
-            res.ok(f, f.node, "futures consumed in submission order", "")
+        elif "as_completed" not in txt and _m3_submission_order(f):
+            res.ok(f, f.node, "futures consumed in submission order", "the futures list is built by submit() in argument "
+                   "order and .result() is taken in a loop/comprehension over that same list")
         else:
             raise AnalysisError("M3: parallel_map's gathering idiom is not recognised")
     if not res.instances:
         raise AnalysisError("M3: no result store found in parallel_map's completion loop")
+
+
+def _m3_submission_order(f: Func) -> bool:
+    """futures = [ex.submit(...) for ... in args] (or appended in a for loop over the arguments) and the results are
+    gathered by iterating that same list in order"""
+    fut_lists: Set[str] = set()
+    for n in walk_no_nested(f.node):
+        if isinstance(n, ast.Assign) and len(n.targets) == 1 and isinstance(n.targets[0], ast.Name) \
+                and isinstance(n.value, ast.ListComp) and isinstance(n.value.elt, ast.Call) \
+                and norm(n.value.elt.func).endswith(".submit"):
+            fut_lists.add(n.targets[0].id)
+        if isinstance(n, ast.Call) and isinstance(n.func, ast.Attribute) and n.func.attr == "append" \
+                and isinstance(n.func.value, ast.Name) and n.args and isinstance(n.args[0], ast.Call) \
+                and norm(n.args[0].func).endswith(".submit"):
+            fut_lists.add(n.func.value.id)
+    if not fut_lists:
+        return False
+    for n in walk_no_nested(f.node):
+        gens = []
+        if isinstance(n, (ast.ListComp, ast.GeneratorExp)):
+            gens = [(g.target, g.iter, n.elt) for g in n.generators]
+        elif isinstance(n, ast.For):
+            gens = [(n.target, n.iter, n)]
+        for tgt, it, body in gens:
+            if isinstance(it, ast.Name) and it.id in fut_lists and isinstance(tgt, ast.Name):
+                if any(isinstance(c, ast.Call) and isinstance(c.func, ast.Attribute) and c.func.attr == "result"
+                       and isinstance(c.func.value, ast.Name) and c.func.value.id == tgt.id for c in ast.walk(body)):
+                    return True
+    return False
 
 
 # ------------------------------------------------------------------------------- M4
